@@ -81,7 +81,7 @@ impl NamedUnit {
 		let alias = bool::deserialize(read)?;
 
 		let len = usize::deserialize(read)?;
-		let mut hashmap = HashMap::with_capacity(len);
+		let mut hashmap = HashMap::new();
 		for _ in 0..len {
 			let k = BaseUnit::deserialize(read)?;
 			let v = Complex::deserialize(read)?;
